@@ -1,4 +1,5 @@
 import XmlRsModel.Infoset
+import XmlRsModel.Gen.XmlGrammarRef
 /-! Document-level model: the checks `xml_info::XmlDocument::new` performs while it builds the items
     (reference resolution, duplicate attributes, unsupported parameter entities), the top-level
     `parseDoc` = grammar + abstraction + checks, and the compact printer (`fmt::Display`). -/
@@ -198,6 +199,27 @@ def parseDoc (s : Str) : Except XErr (IDoc × Str) := parseDocWith env false s
 
 /-- the model with the recorded findings repaired -/
 def parseDocSpec (s : Str) : Except XErr (IDoc × Str) := parseDocWith envSpec true s
+
+/-- the same pipeline over the REVIEWED grammar (`Gen/XmlGrammarRef.lean`, from the committed snapshot
+    tools/ref/xml.json) with its own nesting limits: the specification-side reference that does not
+    move when the source moves.  Shared productions carry the numbers of the current grammar, so the
+    semantic actions read its trees. -/
+def envRefSpec : Env := fun n => if n = N.name then specName else Gen.XmlRef.env n
+
+def parseDocRef (strict : Bool) (s : Str) : Except XErr (IDoc × Str) :=
+  let ev : Env := if strict then envRefSpec else Gen.XmlRef.env
+  match run ev (xmlFuel s) (.nt N.document) s with
+  | .fuel => .error .fuel
+  | .fail => .error .syntax
+  | .ok (.node _ c) rest =>
+      if Gen.XmlRef.maxDepth_element != 0 && c.elemDepth > Gen.XmlRef.maxDepth_element then .error .syntax else
+      if Gen.XmlRef.maxDepth_children != 0 && c.ntDepth N.children > Gen.XmlRef.maxDepth_children then .error .syntax else
+      (match absDocument c with
+       | .error e => .error e
+       | .ok d => match checkDoc d with
+           | .error e => .error e
+           | .ok () => if strict && !strictDoc ev d then .error .reference else .ok (d, rest))
+  | .ok _ _ => .error .shape
 
 /-- current grammar, strict entity checks (used to attribute failures to single findings) -/
 def parseDocStrictOnly (s : Str) : Except XErr (IDoc × Str) := parseDocWith env true s
